@@ -6,6 +6,10 @@ BOX_DYN_CALL = ("<std::boxed::Box<F, A> as std::ops::FnOnce<Args>>::call_once",
                 "<std::boxed::Box<F, A> as std::ops::Fn<Args>>::call")
 
 
+# std functions that invoke a callable handed to them
+INVOKERS = ("std::panic::catch_unwind", "std::thread::spawn", "std::thread::Builder::spawn", "::call_once", "::call_mut", "std::thread::scope")
+
+
 def callee_name(t):
     """the most precise name of a call terminator's target"""
     if t.get("is_resolved") and t.get("resolved"):
@@ -99,6 +103,11 @@ class CallGraph:
                             if c in BOX_DYN_CALL:
                                 for d in sorted(dyn_targets):
                                     self._add(src, d, "dyn-call", b["id"], line, file)
+                            elif c not in F.fns and any(k in c for k in INVOKERS) and any("dyn std::ops::Fn" in x for x in t.get("gargs", []) + t.get("arg_tys", [])):
+                                # a boxed dyn callable handed to code we do not see (catch_unwind, thread::spawn, ...): assume it is called
+                                kind = "dyn-call-caught" if c.startswith("std::panic::catch_unwind") else "dyn-call"
+                                for d in sorted(dyn_targets):
+                                    self._add(src, d, kind, b["id"], line, file)
                         else:
                             impls = self._impl_methods.get(t.get("callee"), [])
                             if impls:
